@@ -201,7 +201,6 @@ Proof.
       * destruct (lookup_found_nth_keyed skey str_eqb str_eqb_eq _ _ _ E) as (x & Hx & Hkx).
         apply (filter_remove_at _ kids i x Hx). now rewrite Hkx.
       * cbn. unfold skey. rewrite is_keyed_ckey, (convert_is_story b story Ec). reflexivity.
-    + unfold emit. destruct (msg_id_exn m); reflexivity.
   - (* StoryAppend *)
     cbn [r_st ok]. unfold others. rewrite filter_app.
     assert (H : filter (fun x => negb (is_keyed skey x)) (carried t_story b) = []).
